@@ -992,7 +992,7 @@ class ParseContext:
 
                     try:
                         next.groups.index(part)
-                    except IndexError:
+                    except ValueError:
                         if next.name != part:
                             return False
 
